@@ -1,1 +1,1 @@
-from . import hashes, hashes_bv, countmin  # noqa: F401  (registration side effects)
+from . import hashes, hashes_bv, countmin, hyperloglog  # noqa: F401  (registration side effects)
